@@ -146,7 +146,10 @@ class _geom1d:
     @ensures("errors_are_roots_of_errors2_and_nothing_changes")
     def _(a, old, result):
         e2, e = E(old.self), elems(result["errors"])
-        return And(*[And(e[k] >= 0, close(e[k] * e[k], e2[k])) for k in range(len(e))], same_hist(old.self, a.self))
+        # numpy takes the root of a narrow integer array in a narrow float type (int16 -> float16): the concrete comparison allows
+        # that type's rounding
+        rel = {2: 4e-3, 4: 1e-6}.get(dtype_of(result["errors"]).itemsize, 1e-9)
+        return And(*[And(e[k] >= 0, close(e[k] * e[k], e2[k], rel=rel)) for k in range(len(e))], same_hist(old.self, a.self))
 
 
 @contract(HNDK + ".bin_sizes", props=["C16"], name="HistogramND geometry")
